@@ -24,7 +24,8 @@ def fam_matching(maxops):
         },
         'ext': [{'name': 'x', 'ch': None}, {'name': 'x', 'ch': '*'}, {'name': 'x', 'ch': '#1'}, {'name': 'y', 'ch': 'b'}],
         'ops': ['fire', 'flush', 'addh', 'rmh'], 'pre': [['reg', 2, 1], ['reg', 3, 2]],
-        'maxops': 2 + maxops, 'firers': [1, 3], 'flushers': [1], 'dyn': [6],
+        # dynamic: a named handler that is not installed initially and the installed global one
+        'maxops': 2 + maxops, 'firers': [1, 3], 'flushers': [1], 'dyn': [3, 6],
     }
     return prog
 
@@ -60,6 +61,24 @@ def fam_detach(extra):
         'maxops': 4 + extra, 'firers': [2], 'flushers': [1, 2], 'dyn': [2],
     }
     return prog
+
+
+def fam_leave(extra):
+    """events dispatched by the old tree while an unregistration is pending (the leaving component
+    still receives them) and after it has completed (it must not): the handler cache must be
+    invalidated at both moments"""
+    return {
+        'comps': {'1': {'chan': 'a'}, '2': {'chan': 'a'}, '3': {'chan': 'a'}},
+        'handlers': {
+            '1': _h(1, ['x'], None, 2, {'x': [['ret', 1]]}),
+            '2': _h(2, ['x'], None, 1, {'x': [['ret', 2]]}),
+            '3': _h(3, ['x'], None, 0, {'x': [['ret', 3]]}),
+        },
+        'ext': [{'name': 'x', 'ch': None}],
+        'ops': ['fire', 'flush', 'unreg'],
+        'pre': [['reg', 2, 1], ['reg', 3, 2], ['fire', 1, 1], ['flush', 1]],
+        'maxops': 4 + extra, 'firers': [1], 'flushers': [1], 'dyn': [],
+    }
 
 
 RANDOM_OPTS = {
@@ -117,6 +136,7 @@ def run(tier, replay=None):
             {'name': 'matching', 'programs': [fam_matching(3 if quick else 4)], 'hist_programs': [fam_matching(2 if quick else 3)]},
             {'name': 'structure', 'programs': [fam_structure(4 if quick else 5)], 'hist_programs': [fam_structure(3 if quick else 4)]},
             {'name': 'detach', 'programs': [fam_detach(5)], 'hist_programs': [fam_detach(5)]},
+            {'name': 'leave', 'programs': [fam_leave(5)], 'hist_programs': [fam_leave(5)]},
         ],
         'teeth': [{'name': 'detach/StaleCache', 'programs': [fam_detach(5)], 'variants': {'StaleCache': True},
                    'expect': {'CacheCoherent', 'ConformsC01'}}],
